@@ -108,7 +108,15 @@ func (vector *Vector) InnerProduct(other Vector) (res {{.ElementName}}) {
 		innerProductVecGeneric(&res, *vector, other)
 		return
 	}
-	innerProdVec(&res[0], &(*vector)[0], &other[0], uint64(len(*vector)))
+	// the kernel reads the words of its first operand through 8-byte broadcast loads placed 4 bytes apart: the
+	// load of the last word of the last element would extend 4 bytes past the end of the vector. The kernel
+	// therefore gets the first n-1 elements and the last product is added here.
+	if n > 1 {
+		innerProdVec(&res[0], &(*vector)[0], &other[0], n-1)
+	}
+	var t {{.ElementName}}
+	t.Mul(&(*vector)[n-1], &other[n-1])
+	res.Add(&res, &t)
 
 	return
 }
